@@ -263,7 +263,7 @@ def run_lines(cmd, stdin=None, timeout=120):
         r = subprocess.run(cmd, input=stdin, capture_output=True, text=True, timeout=timeout)
     except subprocess.TimeoutExpired:
         return -9, ['{"t":"timeout"}'], "timeout"
-    return r.returncode, r.stdout.splitlines(), r.stderr
+    return r.returncode, r.stdout.split("\n"), r.stderr
 
 
 def parse_json_lines(lines):
